@@ -247,6 +247,13 @@ def case(item):
                                   dict(honest).get(i))
         rec["sigs"].add((act[0], completed, v.sig()[:3] if not completed
                          else None))
+        # SSLv3 has no empty Certificate message: a client without a
+        # certificate answers the request with a no_certificate warning
+        ssl3_nocert = (sc.version == (3, 0) and victim == "S" and
+                       len(script) == 1 and act[0] == "replace-alert" and
+                       act[1] == 41 and dict(honest).get(i) == "CERT")
+        if ssl3_nocert:
+            legal = True
         fail = None
         if completed and not legal:
             fail = "victim completed after receiving %r (honest: %r)" % (
@@ -268,7 +275,7 @@ def case(item):
             else:
                 fail = "victim raised %s: %s" % (type(e).__name__,
                                                  str(e)[:60])
-        if fail is None:
+        if fail is None and not ssl3_nocert:
             cont = continued_after_illegal(pup2.tap, H, tls13, victim,
                                            cert_auth)
             if cont is not None:
